@@ -95,7 +95,8 @@ CLAIMED["C20"] = dict(engine="stack", design="4 C20",
         "positions. Tied to /repo by correspondence with order-sensitive probe middlewares and shipped middlewares in every argument "
         "position (lists, tuples, generators, iterators), real temp files in utf-8/latin-1/gbk/utf-16 with CRLF, path/StringIO/file-object "
         "targets, and by an oracle that composes Splitter.split, mw.transform in order and writer.write manually.",
-   note="partial: codecs, universal-newline translation, the file system, the splitter and the shipped middlewares enter as oracles "
+   note="the text layer under parse_file / write_file is MODELLED for utf-8, latin-1 and utf-16 (Model/TextIO.v: strict codecs, byte order mark, universal newlines; C20_text_*: what is written is read back up to newline translation, exactly when there is no carriage return, and the decoders accept one spelling only) and compared with CPython's open() on every run (stream textio, ops 180/181); "
+        "partial: gbk, the file system, the splitter and the shipped middlewares enter as oracles "
         "(finite graphs supplied per case by the manual composition; a missing row is a disagreement); previous_block aliases are "
         "compared as stubs; theorems are close to definitional by design - the correspondence pins the Python to them",
    technique="Coq proof (generic in the middleware type) + differential correspondence via extracted model + manual-composition oracle")
@@ -169,7 +170,7 @@ CLAIMED["C12"] = dict(engine="names", design="4 C12",
   technique="Coq proof (fold invariants, backward simulation against word-level spec) + differential correspondence via extracted model")
 CLAIMED["C13"] = dict(engine="names", design="4 C13",
   text="Coq theorem that strict parse_single_name_into_parts IS the compositional transcription of BibTeX's algorithm (atoms/sections/words/word_case/partition) for ALL strings, that InvalidNameError is raised exactly for unbalanced braces / >2 commas / trailing comma, words-once, Last keeps the final word, strict only adds errors, and SplitNameParts never raises but returns a MiddlewareErrorBlock retaining the entry; spec and Python oracle validated on the repo's 149+11 BibTeX-derived cases at every run.",
-  note="isalpha/isupper enter as per-character flags (theorems hold for any flag assignment); whitespace sets regenerated from the running module and their facts re-proved by vm_compute at every build",
+  note="K14 open: word_case (the library's rule, which the theorem is about) is not BibTeX's von_token_found on five classes of words with a special character or an escape (C13_word_case_refuted_K14, C13_partition_refuted_K14 against the literal transcription Spec/BibtexCase.v; C13_word_case_agrees_without_backslash: no deviation without a backslash); the check's verdict on such words comes from a literal Python transcription of von_token_found; isalpha/isupper enter as per-character flags (theorems hold for any flag assignment); whitespace sets regenerated from the running module and their facts re-proved by vm_compute at every build",
   technique="Coq proof (register/atom simulation, slice arithmetic by lia) + differential correspondence via extracted model incl. the Coq spec itself")
 CLAIMED["C14"] = dict(engine="names", design="4 C14",
   text="Coq theorems for ALL strings: person-level inverse split1(merge1 p)=p for valid names with non-empty last and no word ending in an odd number of backslashes (through the real tokeniser), the list-level law outside the known class K3 (through the real co-author splitter, using C12_exact), reduction of the four-middleware round trip to it, and the refutation witness for K3; the full parse_string/write_string stack is additionally exercised by differential correspondence and the Python oracle on every run.",
